@@ -327,7 +327,8 @@ def _c06(tier, seed):
     jobs = []
     for be in BE:
         jobs += J('c06.cpp', 'optim', be, n=7, args=['part=sched'] + (['threads=2'] if tier == 'quick' else ['threads=2', 'tiny_n=2']), ldflags='-ldl', deadline=(100 if tier == 'quick' else 1500))
-    jobs += J('c06.cpp', 'optim', 'spqlios-fma', n=8, args=['part=hist'], ldflags='-ldl')
+    # histories run on an unperturbed heap: what an earlier operation left in freed memory must stay visible to the next one
+    jobs += J('c06.cpp', 'optim', 'spqlios-fma', n=8, args=['part=hist'], ldflags='-ldl', env={'MALLOC_PERTURB_': '0'})
     # (d) free-running ThreadSanitizer pass: supporting evidence; a TSan report (exit 66) is attributed to the scenario in flight
     for be in (['nayuki-portable', 'fftw'] if tier == 'quick' else BE):
         jobs += J('c06_free.cpp', 'tsan', be, n=2, ldflags='-ldl', crash_is_violation=True, env={'TSAN_OPTIONS': 'halt_on_error=1:exitcode=66:report_signal_unsafe=0:second_deadlock_stack=1'})
@@ -336,7 +337,7 @@ def _c06(tier, seed):
     if tier == 'thorough':
         for be in ['spqlios-fma', 'fftw', 'nayuki-portable']:
             jobs += J('c06.cpp', 'optim', be, n=5, args=['part=sched', 'threads=3', 'bound=2', 'tiny_n=1'], ldflags='-ldl', deadline=2400, timeout=3000)
-        jobs += J('c06.cpp', 'debug', 'fftw', n=8, args=['part=hist', 'depth=2'], ldflags='-ldl', deadline=2400, timeout=3000)
+        jobs += J('c06.cpp', 'debug', 'fftw', n=8, args=['part=hist', 'depth=2'], ldflags='-ldl', deadline=2400, timeout=3000, env={'MALLOC_PERTURB_': '0'})
     return jobs
 PROPS['C06'] = dict(
     level='model_checking',
